@@ -8,7 +8,8 @@ META = {
                   "exponent S.Half, 1/sqrt(B) for -S.Half, 1/B for -1, B**E exactly when the exponent is an integer, pow(B,E) otherwise -- given that the sub-strings read back as the "
                   "sub-expressions and that the base of a non-integer power is non-negative; the infix ** is emitted only for integer exponents and an integer exponent never goes through "
                   "pow() (which would take |base|). ESRPrinter.parenthesize is verified against the contract _print_Pow uses for it (both strictness modes: the result denotes the item and binds "
-                  "strictly tighter than / at least as tight as `level`). The other printer methods (_print_Mul, _print_Add, ...) are not under contract.",
+                  "strictly tighter than / at least as tight as `level`). Purity: a frame obligation on sympy's process-wide printer settings (no ESR function passes `order=` or other printer settings to init_printing or writes them). "
+                  "The other printer methods (_print_Mul, _print_Add, ...) are not under contract.",
     "text": "Bounded stand-in on the real printer and the two real readers: expressions over x>0, a0..a2 real, integers -3..3, rationals "
             "1/2, -1/2, -3/2, 2/3 built with sympy's evaluating constructors from Add, Sub, Mul, Div, integer powers -3..3, rational and general "
             "powers of bases that are non-negative by construction, Abs (evaluated and unevaluated), exp, log|.|, sqrt|.|, sin — exhaustive "
@@ -33,11 +34,11 @@ def payload(tier, seed):
         return {"mode": "run", "seed": seed, "workers": 16,
                 "exhaustive2": [{"leaves": "mini"}, {"leaves": "core", "onesided": True}],
                 "random": [{"depth": 3, "n": 1200}, {"depth": 4, "n": 1200}, {"depth": 5, "n": 1200}],
-                "hashseeds": [0, 1, 12345], "purity_sample": 9000}
+                "hashseeds": [0, 1, 12345, "0+esr"], "purity_sample": 9000}
     return {"mode": "run", "seed": seed, "workers": 16,
             "exhaustive2": [{"leaves": "mini"}, {"leaves": "core"}, {"leaves": "full", "onesided": True}],
             "random": [{"depth": 3, "n": 12000}, {"depth": 4, "n": 12000}, {"depth": 5, "n": 12000}, {"depth": 6, "n": 8000}],
-            "hashseeds": [0, 1, 12345]}
+            "hashseeds": [0, 1, 12345, "0+esr"]}
 
 
 def check(run):
@@ -68,7 +69,7 @@ def check(run):
     for f in res["failures"][:1]:
         run.violation("c12:%s" % (f.get("srepr") or f.get("spec")), f["error"][:900],
                       {"harness": "rt_c12.py", "payload": {"mode": "specs", "specs": [f["spec"]], "workers": 1,
-                                                           "hashseeds": [0, 1, 12345] if "hashseed" in f else []}})
+                                                           "hashseeds": [0, 1, 12345, "0+esr"] if "hashseed" in f else []}})
     from vlib import deductive as D
     from contracts import c_printer
     st_, pfailed, _e = D.verify_function(run, "generation/custom_printer.py", "ESRPrinter._print_Pow", c_printer.print_pow_contract, timeout_ms=8000,
@@ -87,8 +88,14 @@ def check(run):
                "identities of powers: b**(1/2) = sqrt(b), b**(-1/2) = 1/sqrt(b), b**(-1) = 1/b; |b| = b for the (non-negative) bases of non-integer powers",
                "A-str: a string built with `fmt % args` is an injective function of its arguments; the template used is read off the returned term")
     run.trust("pyvc", "z3 5.1.0")
+    from pyvc import templates
+    gfailed = D.structural_generic(run, ["generation/simplifier.py", "generation/generator.py", "generation/duplicate_checker.py", "generation/custom_printer.py",
+                                         "fitting/likelihood.py", "fitting/test_all.py", "fitting/test_all_Fisher.py", "fitting/match.py", "fitting/fit_single.py"],
+                                   templates.printer_state_obligations, "pyvc.templates (AST analysis)",
+                                   "frame condition on sympy's global printer settings (what a new ESRPrinter takes its defaults from)")
     sfailed = D.symtab_obligations(run)
     D.report_structural(run, sfailed, "symtab", "pyvc/symtab.py")
+    D.report_structural(run, gfailed, "printer-state", "pyvc/templates.py")
     if pfailed and not run.violations:
         from checks.C14 import report_unproved
         report_unproved(run, pfailed, False, "ESRPrinter._print_Pow / parenthesize")
